@@ -18,7 +18,7 @@ import warnings
 VERIF = os.path.dirname(os.path.dirname(os.path.abspath(__file__)))
 LEAN = os.path.join(VERIF, "lean")
 BUILD = os.path.join(VERIF, "build")
-EVID = os.path.join(VERIF, "evidence")
+EVID = os.environ.get("VERIF_EVIDENCE_DIR") or os.path.join(VERIF, "evidence")  # override: runs against seeded changes
 REPLAYS = os.path.join(VERIF, "replays")
 DRIVER = os.path.join(LEAN, ".lake", "build", "bin", "unytmodel")
 PY = "/venv/bin/python"
@@ -221,9 +221,9 @@ def audit_axioms(module, names):
     out = p.stdout + p.stderr
     res = {}
     # "'Name' depends on axioms: [a, b]"  or  "'Name' does not depend on any axioms"
-    for m in re.finditer(r"'([^']+)' depends on axioms: \[([^\]]*)\]", out, re.S):
+    for m in re.finditer(r"^'(\S+?)' depends on axioms: \[([^\]]*)\]", out, re.S | re.M):
         res[m.group(1)] = [a.strip() for a in m.group(2).replace("\n", " ").split(",") if a.strip()]
-    for m in re.finditer(r"'([^']+)' does not depend on any axioms", out):
+    for m in re.finditer(r"^'(\S+?)' does not depend on any axioms", out, re.M):
         res[m.group(1)] = []
     return res, out
 
